@@ -665,13 +665,26 @@ def build_unit(repo, unit, verif_root, twin=False):
     pieces = {}
     for ex in unit.get("extract", []):
         ex = dict(ex)
+        text, lmap, raw = extract_one(repo, ex, report)
         if twin and ex.get("twin", True) and ex.get("kind", "fn") == "fn":
+            # vacuity twin: a renamed copy of the function with `ensures false` appended, placed
+            # right after the original (callers / recursive calls still see the real contract)
+            ex2 = dict(ex)
             ann = list(ex.get("annot") or [])
-            ann.append({"kind": "contract", "text": "ensures false,"} if not _has_contract(ann)
-                       else None)
-            ann = [a for a in ann if a]
-            ex["annot"] = _twin_annots(ann)
-        pieces[ex["name"]] = (ex,) + extract_one(repo, ex, report)
+            if not _has_contract(ann):
+                ann.append({"kind": "contract", "text": "ensures false,"})
+            else:
+                ann = _twin_annots(ann)
+            ex2["annot"] = ann
+            fname = ex["path"][-1].split()[-1]
+            rw = list(ex.get("rewrite") or [])
+            rw.append({"id": "TWIN", "regex": True, "pattern": r"\bfn\s+%s\b" % re.escape(fname),
+                       "replace": "fn %s__twin" % fname, "count": 1})
+            ex2["rewrite"] = rw
+            t2, l2, _ = extract_one(repo, ex2, [])
+            text = text + "\n" + t2
+            lmap = lmap + l2
+        pieces[ex["name"]] = (ex, text, lmap, raw)
     out_lines = []
     genmap = []
     used = set()
